@@ -29,6 +29,23 @@ CLAIMED = {
         "(oracle), SciPy's solvers (event model), floating-point norm. Known finding: Krylov with "
         "maxit=0 reports success (KNOWN_FINDINGS.txt).",
    technique='Lean 4 invariant over the cycle loop / event fold + trace correspondence; independent residual oracle'),
+ 'C09': dict(
+   text="Proof (Lean 4, ordered field): SciPy's interval rule (searchsorted) and emg3d's "
+        "point-source rule both bracket the coordinate; two bracketing intervals give the same "
+        "linear interpolant (continuity), so the 1-D weight functionals coincide for every "
+        "coordinate incl. nodes; lifted to 3-D: for every position inside the second to "
+        "second-last cell, every orientation and every field, the linear-interpolation receiver "
+        "equals <unit point-source vector, field>; receiver linear; NaN exactly outside that "
+        "region; discrete Faraday law of the edge-curl factor (mu_r = 1); magnetic receivers via "
+        "curl^T adjointness (C02); reciprocity <p_r, u> = <p_s, v> from the symmetry of the "
+        "operator. Tie to code: get_receiver(linear) vs model on staggered stretched grids "
+        "(positions on nodes/edges/faces/generic); transpose identity and magnetic transpose "
+        "identity (f>0 and f<0) on the real functions; _edge_curl_factor executed exactly; NaN "
+        "policy for electric/magnetic, linear/cubic; reciprocity on real solves.",
+   design='§4 C09',
+   note=TB % 'c09' + "Modelled not verified: scipy RegularGridInterpolator, discretize "
+        "interpolation matrices and edge_curl (compared on the real code); cubic method excluded.",
+   technique='Lean 4 interval-bracketing + continuity lemma lifted to 3-D tensor sums; float correspondence'),
  'C10': dict(
    text="Proof (Lean 4, ordered field / commutative ring): the 1-D adjoint-interpolation weights "
         "of a point source sum to one for every position (interior, extrapolating outer half cells, "
